@@ -25,7 +25,7 @@ def DPs(tier):
 
 def cases(tier, seed):
     out = []
-    reps = 1 if tier == 'quick' else 12
+    reps = 1 if tier == 'quick' else 60
     for prog in progs.cat():
         if {'fancy', 'nonunique'} & prog.tags:
             continue        # advanced (list) indexing is outside the property's program class (basic indexing and views)
@@ -38,7 +38,12 @@ def cases(tier, seed):
                 out.append({'kind': 'single', 'seed': s, 'params': {'prog': prog.name, 'D': D, 'P': P,
                                                                      'rec': ['ndarray', 'utpm11', 'utpmDP', 'direct'][int(r.integers(4))],
                                                                      'rec_at_eval': bool(r.integers(2))}})
-    ncomp = 300 if tier == 'quick' else 25000
+                # the same operation with its inputs also used by another operation recorded after / before it:
+                # every pullback has to accumulate into adjoints that already hold contributions
+                out.append({'kind': 'single', 'seed': s + 1, 'params': {'prog': prog.name, 'D': D, 'P': P,
+                                                                         'rec': ['ndarray', 'utpm11', 'utpmDP', 'direct'][int(r.integers(4))],
+                                                                         'rec_at_eval': bool(r.integers(2)), 'fanout': 1 + int(r.integers(2))}})
+    ncomp = 300 if tier == 'quick' else 150000
     for i in range(ncomp):
         s = case_seed('C03', seed, 'comp', i)
         r = np.random.default_rng(s)
@@ -138,6 +143,26 @@ def run_case(ctx, case):
         if not all(prog.in_domain([x[0, pp] for x in xs]) for pp in range(P)):
             ctx.skip('out_of_domain:regularity-condition'); return
         bases = [x[0, 0] for x in xs] if p['rec_at_eval'] else prog.base_inputs(rng)
+        f = prog.f
+        fo = p.get('fanout', 0)
+        if fo:
+            try:
+                yshape = np.shape(prog.f(*[np.array(x[0, 0], dtype=float) for x in xs]))
+            except Exception:
+                ctx.skip('forward-unsupported:' + prog.name); return
+            W = np.round(rng.uniform(0.5, 1.5, size=yshape), 2)
+            Us = [np.round(rng.uniform(0.5, 1.5, size=x.shape[2:]), 2) for x in xs]
+
+            def f(*args):
+                if fo == 2:
+                    e = sum(algopy.sum(a * U_) for a, U_ in zip(args, Us))
+                s_ = algopy.sum(prog.f(*args) * W)
+                if fo == 1:
+                    e = sum(algopy.sum(a * U_) for a, U_ in zip(args, Us))
+                return s_ + e
+            mech = 'single:%s:%s' % (prog.name, 'inputs-also-used-later' if fo == 1 else 'inputs-also-used-earlier')
+            duality(ctx, mech, prog.name, f, xs, rng, p['rec'], bases, (prog.name, D, P, p['rec'], p['rec_at_eval'], fo))
+            return
         duality(ctx, 'single:' + prog.name, prog.name, prog.f, xs, rng, p['rec'], bases, (prog.name, D, P, p['rec'], p['rec_at_eval']),
                 sample={'program': prog.name, 'D': D, 'P': P, 'rec': p['rec']} if rng.random() < 0.02 else None)
     else:
